@@ -111,7 +111,7 @@ def _render_spec(spec: dict[str, Any]) -> Any:
         env = _ENVS[key] = drv.make_env(spec.get("env") or {})
     data = V.dec(spec["data"])
     o = drv.parse_and_render(env, spec["source"], data, use_async=spec.get("async", False))
-    return o.key() if o.ok else ["err", o.err_class, str(o.exc).split("\n")[0][:100]]
+    return o.key() if o.ok else ["err", o.err_class, drv.safe_str(o.exc).split("\n")[0][:100]]
 
 
 def _child_job(job: dict[str, Any]) -> dict[str, Any]:
